@@ -7,6 +7,7 @@ M = "scenic.core.simulators"
 
 
 def register(reg):
+    register_replay(reg)
     sim = C.Obj(f"{M}:Simulation", divergenceTolerance=C.Real(lo=0))
     # scalar dynamic properties
     reg.add(
@@ -85,3 +86,92 @@ def replay_diverged_vector(inputs, clause):
     if bool(r) != want:
         return f"valuesHaveDiverged(expected={e}, actual={a}, tolerance={tol}) returned {r}, distance > tolerance is {want}"
     return None
+
+
+def register_replay(reg):
+    """Recording / replaying of run-time random values (C18: "including random choices made during the run")."""
+    from pyvc.interp import BuiltinFn
+    from pyvc.values import Opaque, PObj
+
+    def setup_rec(I, env):
+        eng = I.eng
+        log = []
+        dist = PObj("Dist", tag="dist")
+        dist.fields["serializeValue"] = BuiltinFn("serializeValue", lambda values, ser: log.append(("serialize", values, ser)))
+        dist.fields["deserializeValue"] = BuiltinFn("deserializeValue", lambda ser, values: (log.append(("deserialize", ser, values)), Opaque("decoded"))[1])
+        has_out = eng.choose(2, "recording enabled?") == 1
+        out = PObj("Serializer", tag="replayOut") if has_out else None
+        self = env.vars["self"]
+        self.fields.update(_replayOut=out, _replayIn=PObj("Serializer", tag="replayIn"), replaying=eng.fresh_bool("replaying"), verbosity=0, currentTime=0)
+        env.vars.update(dist=dist, values=Opaque("values"), _log=log, _out=out)
+
+    def post_rec(I, env, outcome):
+        eng, log, out = I.eng, env.vars["_log"], env.vars["_out"]
+        name = "simulators.Simulation.recordSampledValue"
+        if outcome[0] != "return":
+            return
+        if out is None:
+            eng.check(f"{name}#ensures.nothing_written_without_a_recording", log == [])
+        else:
+            # every value drawn during the run is recorded -- also while an earlier recording is being replayed
+            eng.check(f"{name}#ensures.value_recorded_once_whenever_recording_is_on", len(log) == 1 and log[0][0] == "serialize" and log[0][1] is env.vars["values"] and log[0][2] is out)
+
+    reg.add(
+        C.Contract(
+            f"{M}:Simulation.recordSampledValue",
+            params=dict(self=C.Obj(f"{M}:Simulation"), dist=C.Const(None), values=C.Const(None)),
+            setup=setup_rec,
+            post=post_rec,
+            properties=("C18",),
+        )
+    )
+
+    def post_rep(I, env, outcome):
+        eng, log = I.eng, env.vars["_log"]
+        name = "simulators.Simulation.replaySampledValue"
+        if outcome[0] != "return":
+            return
+        eng.check(f"{name}#ensures.value_decoded_from_the_replay_input", len(log) == 1 and log[0][0] == "deserialize" and log[0][1] is env.vars["self"].fields["_replayIn"] and log[0][2] is env.vars["values"])
+
+    reg.add(
+        C.Contract(
+            f"{M}:Simulation.replaySampledValue",
+            params=dict(self=C.Obj(f"{M}:Simulation"), dist=C.Const(None), values=C.Const(None)),
+            setup=setup_rec,
+            post=post_rep,
+            properties=("C18",),
+        )
+    )
+
+    def setup_can(I, env):
+        eng = I.eng
+        self = env.vars["self"]
+        at_end = eng.fresh_bool("replay_data_exhausted")
+        rin = PObj("Serializer", tag="replayIn")
+        rin.fields["atEnd"] = BuiltinFn("atEnd", lambda: at_end)
+        rep = eng.fresh_bool("replaying")
+        self.fields.update(_replayIn=rin, replaying=rep, verbosity=0, currentTime=0)
+        env.vars.update(_at_end=at_end, _rep=rep)
+
+    def post_can(I, env, outcome):
+        from pyvc.values import sv_and, sv_not, tobool
+        import z3
+
+        eng = I.eng
+        name = "simulators.Simulation.replayCanContinue"
+        if outcome[0] != "return":
+            return
+        want = z3.And(tobool(env.vars["_rep"]), z3.Not(tobool(env.vars["_at_end"])))
+        eng.check(f"{name}#ensures.true_iff_replaying_and_data_left", tobool(I.truth(outcome[1])) == want)
+        eng.check(f"{name}#ensures.replaying_flag_updated", tobool(I.truth(env.vars["self"].fields["replaying"])) == want)
+
+    reg.add(
+        C.Contract(
+            f"{M}:Simulation.replayCanContinue",
+            params=dict(self=C.Obj(f"{M}:Simulation")),
+            setup=setup_can,
+            post=post_can,
+            inline=["Simulation.detectReplayEnd"],
+            properties=("C18",),
+        )
+    )
